@@ -23,3 +23,6 @@ func verifWalSync(w *WAL, err error) {
 	}
 	VerifSyncHook(t.Name(), off)
 }
+
+// VerifQuiet silences the package logger (the harness reopens thousands of damaged logs).
+func VerifQuiet() { plog.Logger = nil }
